@@ -6,6 +6,7 @@ import PrqlModel.Model.Rel
 import PrqlModel.Lemmas.SpSeg
 import PrqlModel.Lemmas.SortBy
 import PrqlModel.Lemmas.RelBlock
+import PrqlModel.Lemmas.InferSorts
 namespace Props.C03
 open Rel Model.Take
 
@@ -225,5 +226,85 @@ theorem take_positions_rel (rs : List Range) (l : List α) (h : StartsOk rs) :
   simp only [takes, hf]
 
 end RelOrder
+
+/-! ## T3 the sorting inference of the back end (mirror of `SortingInference::fold_sql_transforms`, postprocess.rs)
+
+`Model.InferSorts.inferBlock` is tied to the code by replaying every recorded call (tools/sorttrace.py). The theorems say
+what the pass computes, for blocks of any length: the ORDER BY placed in front of every LIMIT is the sort in effect at
+that point - the most recent Sort, or the order inherited from the relation the block reads, unless an Aggregate /
+Distinct came later - or the take's own embedded sort. -/
+section InferSorts
+open Model.InferSorts Lemmas.InferSorts
+
+/-- **infer_sorts_tracks.** The state of the pass after any prefix of a block is the sort in effect read off that prefix
+(`inEffect`, `doInEffect`: declarative, most recent transform first). -/
+theorem infer_sorts_tracks (ts : List STr) :
+    (run {} ts).1 = { sorting := inEffect ts.reverse, fromDO := doInEffect ts.reverse } := by
+  rw [run_state, effFrom_init, doFrom_init]
+
+/-- the sort in effect is retained by select, filter (and the set operations) and take … -/
+theorem retained_by_select_filter_take (before : List STr) (cols : List CId) (p : Bool) (e : Sorting) :
+    inEffect (.select cols :: before) = inEffect before ∧ inEffect (.other :: before) = inEffect before ∧
+    inEffect (.take p e :: before) = inEffect before := ⟨rfl, rfl, rfl⟩
+
+/-- … and by the left input of a join, unless it is only the internal order of a DISTINCT ON -/
+theorem retained_by_join (before : List STr) (h : doInEffect before = false) :
+    inEffect (.join :: before) = inEffect before := by simp [inEffect, h]
+
+/-- aggregate and distinct (what `group` becomes) reset it; a new sort replaces it; a From inherits -/
+theorem reset_and_replace (before : List STr) (s inh : Sorting) (f : Bool) :
+    inEffect (.aggregate :: before) = [] ∧ inEffect (.distinct :: before) = [] ∧
+    inEffect (.sort s :: before) = s ∧ inEffect (.from inh f :: before) = inh := ⟨rfl, rfl, rfl, rfl⟩
+
+/-- **take_gets_the_sort_in_effect.** In the output of the pass every Take is directly preceded by a Sort, and that
+Sort is the take's own embedded sort when it is a plain take that carries one, otherwise the sort in effect after the
+transforms in front of it. -/
+theorem take_gets_the_sort_in_effect (pre post : List STr) (plain : Bool) (emb : Sorting) :
+    (run {} (pre ++ .take plain emb :: post)).2 = (run {} pre).2 ++
+      [.emitted (if plain && !emb.isEmpty then emb else inEffect pre.reverse), .keep (.take plain emb)] ++
+      (run (run {} pre).1 post).2 := take_sort _ pre post plain emb rfl
+
+/-- the same for DISTINCT ON: its row selection uses the sort in effect -/
+theorem distinct_on_gets_the_sort_in_effect (pre post : List STr) :
+    (run {} (pre ++ .distinctOn :: post)).2 = (run {} pre).2 ++
+      [.emitted (inEffect pre.reverse), .keep .distinctOn] ++
+      (run { sorting := inEffect pre.reverse, fromDO := true } post).2 := distinctOn_sort _ pre post rfl
+
+/-- **sorts_only_where_needed.** Every Sort of the input is dropped, every other transform is handed through unchanged
+and in order, and a Sort is emitted only directly in front of a Take or a DistinctOn (the final ORDER BY of the main
+query is added by `fold_sql_query` from the state of `infer_sorts_tracks`). -/
+theorem sorts_only_where_needed (ts : List STr) :
+    (run {} ts).2.filterMap keptOf = ts.filter (fun t => !isSortT t) ∧ emittedOnlyBefore (run {} ts).2 = true :=
+  ⟨kept_transforms {} ts, run_emits_only_before {} ts⟩
+
+/-- **cte_provides_sort_columns.** A block that becomes a CTE selects every column of the sorting it hands on to its
+readers (they re-emit that sorting as their ORDER BY). -/
+theorem cte_provides_sort_columns (ts : List STr) (cols : List CId)
+    (h : firstSelect (inferBlock false ts).2 = some cols) :
+    ∀ c ∈ (inferBlock false ts).1.sorting, c.1 ∈ cols := cte_select_has_sort_columns ts cols h
+
+/-- the main relation's Select is left alone -/
+theorem main_select_untouched (ts : List STr) : (inferBlock true ts).2 = (run {} ts).2 := by
+  simp [inferBlock]
+
+/-- **readers_see_the_stored_sorting.** What a reader inherits from a CTE is what was stored for it last, whatever else
+was stored for other CTEs and however many look-ups happened before: look-ups leave the store unchanged. -/
+theorem readers_see_the_stored_sorting (s : Store) (evs : List Ev) (t t' : Nat) (v w : Sorting × Bool) (h : t ≠ t') :
+    (s.insert t v).read t = v ∧ ((s.insert t v).insert t' w).read t = v ∧
+    storeAfter s evs = storeAfter s (evs.filter isIns) :=
+  ⟨read_insert_same s t v, by rw [read_insert_other _ _ _ _ h, read_insert_same], storeAfter_ignores_reads s evs⟩
+
+/-- non-vacuity: `from cte(order a) | filter | join | sort b desc | select | take 3 | aggregate`: the LIMIT gets ORDER BY b DESC,
+and the block hands on no order -/
+example : inferBlock true [.from [(1, false)] false, .other, .join, .sort [(2, true)], .select [1, 2], .take true [], .aggregate] =
+    ({ sorting := [], fromDO := false },
+     [.keep (.from [(1, false)] false), .keep .other, .keep .join, .keep (.select [1, 2]),
+      .emitted [(2, true)], .keep (.take true []), .keep .aggregate]) := by decide
+
+/-- a CTE whose order is on a column it does not select gets that column added -/
+example : (inferBlock false [.from [] false, .select [1], .sort [(2, false)]]).2 =
+    [.keep (.from [] false), .keep (.select [1, 2])] := by decide
+
+end InferSorts
 
 end Props.C03
